@@ -586,6 +586,9 @@ func (e *Env) call(n ECall) Term {
 	case "alive":
 		need(1)
 		return mk(SBool, "(select %s %s)", e.c.aliveCur(e.cur).S, arg(0).S)
+	case "cancelled":
+		need(1)
+		return sel(e.c.heapCur(e.cur, ctxDoneKey, arrSort(SBool)), arg(0), SBool)
 	case "closed":
 		need(1)
 		return sel(e.c.heapCur(e.cur, chClosed, arrSort(SBool)), arg(0), SBool)
